@@ -308,7 +308,7 @@ impl Part for Connect {
     }
     fn check(&self, c: &ConnectCase, ev: &mut Local) -> Result<(), Fail> {
         // the generated ops never contain transport selection; it is appended here with real loopback addresses
-        let mut ops: Vec<Op> = c.ops.iter().filter(|o| !matches!(o, Op::Tcp | Op::Udp(_) | Op::Relay)).cloned().collect();
+        let mut ops: Vec<Op> = c.ops.iter().filter(|o| !matches!(o, Op::Tcp | Op::Udp(_))).cloned().collect();
         let received: Vec<Vec<u8>>;
         let model;
         if !c.udp {
@@ -335,12 +335,24 @@ impl Part for Connect {
             } else {
                 guard(|| b.connect_blocking().map(|f| drop(f)).map_err(|e| e.to_string()))
             };
+            let unrepresentable = model.interval.map(|i| i > 65535).unwrap_or(false);
             match r {
                 Err(p) => fail!("c18:connect-panics", "tcp connect panicked: {p}"),
-                Ok(Err(e)) => fail!("c18:connect-fails", "tcp connect to a listening loopback socket failed: {e}"),
+                Ok(Err(e)) => {
+                    if !unrepresentable {
+                        fail!("c18:connect-fails", "tcp connect to a listening loopback socket failed: {e}");
+                    }
+                },
                 Ok(Ok(())) => {},
             }
             let bytes = server.join().ok().flatten().ok_or_else(|| Fail::new("c18:nothing-received", "the listener saw no complete stream"))?;
+            if unrepresentable {
+                // an interval the 16-bit field cannot carry must be refused, never sent as some other value
+                ensure!(bytes.is_empty(), "c18:unrepresentable-interval-sent-as-another-value", "interval {:?} ms does not fit the ISI field, yet the peer received {}", model.interval, hex(&bytes));
+                ev.class("refused: interval out of range");
+                ev.nontrivial(&format!("{c:?}"));
+                return Ok(());
+            }
             received = vec![bytes];
         } else {
             let peer = std::net::UdpSocket::bind("127.0.0.1:0").map_err(|e| {
@@ -370,11 +382,22 @@ impl Part for Connect {
                         ev.class("skipped: local port taken meanwhile");
                         return Ok(());
                     }
-                    fail!("c18:connect-fails", "udp connect failed: {e}");
+                    if !model.interval.map(|i| i > 65535).unwrap_or(false) {
+                        fail!("c18:connect-fails", "udp connect failed: {e}");
+                    }
                 },
                 Ok(Ok(())) => {},
             }
             peer.set_nonblocking(true).unwrap();
+            if model.interval.map(|i| i > 65535).unwrap_or(false) {
+                let mut buf = [0u8; 2048];
+                if let Ok(n) = peer.recv(&mut buf) {
+                    fail!("c18:unrepresentable-interval-sent-as-another-value", "interval {:?} ms does not fit the ISI field, yet the peer received {}", model.interval, hex(&buf[..n]));
+                }
+                ev.class("refused: interval out of range");
+                ev.nontrivial(&format!("{c:?}"));
+                return Ok(());
+            }
             let mut got = vec![];
             let mut buf = [0u8; 2048];
             // loopback delivery is synchronous with send(): everything sent by connect is already queued
@@ -428,7 +451,7 @@ fn op_strategy(with_transport: bool) -> impl Strategy<Value = Op> {
         6 => (0usize..10, any::<bool>()).prop_map(|(i, b)| Op::Flag(i, b)),
         1 => any::<u16>().prop_map(|b| Op::Flags(b & 0x0ffc)),
         1 => prop_oneof![Just(None), (0x21u8..0x7f).prop_map(Some)].prop_map(Op::Prefix),
-        1 => prop_oneof![Just(None), (0u32..65536).prop_map(Some)].prop_map(Op::Interval),
+        1 => prop_oneof![2 => Just(None), 4 => (0u32..65536).prop_map(Some), 1 => Just(Some(65535u32)), 1 => Just(Some(65536u32)), 1 => (65536u32..4_000_000).prop_map(Some)].prop_map(Op::Interval),
         1 => text_opt(20).prop_map(Op::Iname),
         1 => text_opt(20).prop_map(Op::Admin),
         1 => any::<u8>().prop_map(Op::Reqi),
@@ -452,7 +475,8 @@ pub fn run(run: &mut Run) {
         tcp_nodelay are applied to the real builder and to a plain struct model (later calls override earlier ones); isi() must not panic \
         and must render like the model's ISI (defaults: name insim.rs, empty password, NUL prefix, interval 0, request id 0, UDP port = \
         configured local port or 0). All 1024 flag states via the individual setters (complete). Connect: a loopback TCP listener / UDP \
-        peer receives the handshake of connect_blocking and connect_async: exactly one ISI frame equal to Codec(mode).encode(model ISI). \
+        peer receives the handshake of connect_blocking and connect_async: exactly one ISI frame equal to Codec(mode).encode(model ISI); relay() calls earlier in the sequence must not \
+        disturb it, and an interval beyond the 16-bit field must be refused (nothing sent), never sent as another value. \
         Non-trivial = at least two builder calls (model part), every connect case."
         .into();
     run.assumptions = vec![
@@ -463,7 +487,7 @@ pub fn run(run: &mut Run) {
     let n = run.budget(200_000, 5_000_000);
     run.prop(&IsiModel, proptest::collection::vec(op_strategy(true), 0..25), n);
     run.max_shrink_iters = 200;
-    let strat = (proptest::collection::vec(op_strategy(false), 0..12), any::<bool>(), any::<bool>(), any::<bool>()).prop_map(|(ops, udp, with_local, async_api)| ConnectCase { ops, udp, with_local, async_api });
+    let strat = (proptest::collection::vec(prop_oneof![8 => op_strategy(false), 1 => Just(Op::Relay)], 0..12), any::<bool>(), any::<bool>(), any::<bool>()).prop_map(|(ops, udp, with_local, async_api)| ConnectCase { ops, udp, with_local, async_api });
     let n = run.budget(600, 20_000);
     run.prop(&Connect, strat, n);
 }
